@@ -62,7 +62,9 @@ def gen_points(rng, lo: float, hi: float):
         pts.append(("slightly-outside", rng.choice([lo - R * rng.random() * 0.5, hi + R * rng.random() * 0.5])))
     out = []
     for c, v in pts:
-        if math.isfinite(v):
+        # inputs whose distance to a bound is itself not a finite double (|x - bound| > 1.8e308) are left out: no formulation in
+        # double precision can even form the offset it has to reduce (see DESIGN 10.5)
+        if math.isfinite(v) and math.isfinite(v - lo) and math.isfinite(v - hi):
             out.append((c, float(v)))
     return out
 
@@ -72,11 +74,16 @@ def make_case(seed, idx, tier):
     d = rng.randint(1, 4)
     cls = gen.BOX_CLASSES[idx % len(gen.BOX_CLASSES)]
     box = gen.gen_box(rng, d, cls)
+    if idx % 16 == 11:
+        d = rng.randint(1, 3)
+        pool = [[-6e307, 6e307], [-8.9e307, 8.9e307], [0.0, 1.5e308], [-1.7e308, 1e300], [-4.5e307, 4.5e307]]
+        box = {"cls": "huge", "bounds": [list(rng.choice(pool)) for _ in range(d)]}
     if idx % 8 == 7:
         # one box whose coordinates live on wildly different scales (allowances must be per coordinate)
         d = rng.randint(2, 4)
         pool = [[0.0, 1e9], [0.0, 1e-9], [-1e6, 1e6], [1.0, 1.0 + 1e-3], [-0.1, 0.2], [0.0, 1e-6], [-5.0, 5.0], [1e6, 1e6 + 1.0],
-                [0.0, 1e-16], [-3e-17, 5e-17], [1e-300, 3e-300]]  # ranges far below machine epsilon in absolute terms are ordinary boxes too
+                [0.0, 1e-16], [-3e-17, 5e-17], [1e-300, 3e-300],  # ranges far below machine epsilon in absolute terms are ordinary boxes too
+                [-6e307, 6e307], [-8.9e307, 8.9e307], [0.0, 1.5e308], [-1.7e308, 1e300]]  # finite boxes whose range is finite but twice the range is not
         box = {"cls": "xscale", "bounds": [list(rng.choice(pool)) for _ in range(d)]}
     cols = [gen_points(rng, b[0], b[1]) for b in box["bounds"]]
     m = max(len(c) for c in cols)
